@@ -205,6 +205,56 @@ def reuse_buf(case, name, t):
     return buf[key]
 
 
+GRAD_MODES = ["plain", "plain", "plain", "nograd", "inference", "rg", "graph", "param"]
+
+
+def call_in_mode(mode, fn, tensors):
+    """calls fn(*tensors') with the operands prepared for the autograd mode; returns the detached result"""
+    import contextlib
+    prep = list(tensors)
+    cm = contextlib.nullcontext()
+    if mode == "nograd":
+        prep = [t if t is None or t.layout != torch.strided else t.clone().requires_grad_() for t in prep]
+        cm = torch.no_grad()
+    elif mode == "inference":
+        cm = torch.inference_mode()
+    elif mode == "rg":
+        prep = [t if t is None or t.layout != torch.strided else t.clone().requires_grad_() for t in prep]
+    elif mode == "graph":
+        prep = [t if t is None or t.layout != torch.strided else t.clone().requires_grad_() * 1.0 for t in prep]
+    elif mode == "param":
+        prep = [t if t is None or t.layout != torch.strided else torch.nn.Parameter(t.clone()) for t in prep]
+        cm = torch.no_grad()
+    with cm:
+        out = fn(*prep)
+    return out.detach() if isinstance(out, torch.Tensor) else out
+
+
+def values_differ(xp, x, eps):
+    """result of the same call in another autograd mode / spelling: equal up to the rounding of a different memory layout"""
+    if not isinstance(xp, torch.Tensor) or not isinstance(x, torch.Tensor) or tuple(xp.shape) != tuple(x.shape):
+        return True
+    a, b_ = torch.nan_to_num(xp.detach().double()), torch.nan_to_num(x.detach().double())
+    if a.numel() == 0:
+        return False
+    if a.dim() < 2:
+        return bool(((a - b_).abs() > 64 * eps * max(a.numel(), 1) * torch.maximum(a.abs(), b_.abs()).amax()).any())
+    return bool(((a - b_).abs() > 64 * eps * a.shape[-2] * torch.maximum(a.abs(), b_.abs()).amax(dim=(-2, -1), keepdim=True)).any())
+
+
+def same_storage(x, t):
+    try:
+        return (isinstance(x, torch.Tensor) and isinstance(t, torch.Tensor) and x.layout == torch.strided
+                and t.layout == torch.strided and x.numel() > 0 and t.numel() > 0
+                and x.untyped_storage().data_ptr() == t.untyped_storage().data_ptr())
+    except Exception:
+        return False
+
+
+def overlaps_itself(x):
+    return isinstance(x, torch.Tensor) and x.layout == torch.strided and any(st == 0 and sz > 1 for st, sz in zip(x.stride(), x.shape))
+
+
 def pub(case):
     return {k: v for k, v in case.items() if not k.startswith("_")}
 
@@ -348,16 +398,35 @@ def check_ls(ctx: Ctx, case, lines_out=None) -> bool:
     elif not (case.get("alias") or case.get("expand")):
         A, b = V.make("A", A, case.get("view")), V.make("b", b, case.get("viewb"))
     A0, b0 = A.clone(), b.clone()
-    sol = case.get("_sol") or make_solver(name)
+    if "_pre" in case:
+        case["_pre"]()
+    sol = case["_solf"]() if "_solf" in case else (case.get("_sol") or make_solver(name))
     default_cfg = name in DEFAULT_CFG  # others: wrapper stream + truncated-SVD law
+    gm = case.get("grad", "plain")
     try:
-        x = sol(A, b)
+        x = call_in_mode(gm, sol, [A, b]) if gm != "plain" else sol(A, b)
     except Exception as e:
-        ctx.fail(rep_case(case), f"raises: {name} raised on a finite system ({m}x{n}): {type(e).__name__}: {str(e)[:100]}" + sfx(case))
+        if "_post" in case:
+            case["_post"]()
+        ctx.fail(rep_case(case), f"raises: {name} raised on a finite system ({m}x{n}, autograd mode {gm}): {type(e).__name__}: {str(e)[:100]}" + sfx(case))
         return False
     ok = True
+    if "_post" in case:
+        case["_post"]()
     if bad_result(ctx, rep_case(case), x, name, sfx(case)):
         return False
+    if gm != "plain":
+        # value independence of the autograd mode: same numbers as the plain call
+        ctx.count(f"grad.{gm}")
+        xp = make_solver(name)(A.detach().clone(), b.detach().clone())
+        if values_differ(xp, x, eps):
+            dd = float((xp.double() - x.double()).abs().max()) if tuple(xp.shape) == tuple(x.shape) else float("nan")
+            ctx.fail(rep_case(case), f"grad-mode: {name} returns different values under autograd mode `{gm}` than with plain tensors "
+                                     f"(max difference {dd:.3e}, {m}x{n}, {dtype})" + sfx(case))
+            ok = False
+    if same_storage(x, A) or same_storage(x, b) or overlaps_itself(x):
+        ctx.fail(rep_case(case), f"alias: the tensor returned by {name} shares memory with an argument or overlaps itself" + sfx(case))
+        ok = False
     if not (torch.equal(A, A0) and torch.equal(b, b0)) or V.dirty():
         ctx.fail(rep_case(case), f"mutation: {name} changed its arguments {V.dirty()} (views {case.get('view')}/{case.get('viewb')})" + sfx(case))
         ok = False
@@ -369,10 +438,11 @@ def check_ls(ctx: Ctx, case, lines_out=None) -> bool:
         return False
     # wrapper correspondence with the kernel
     K = kernel_ls(name, sol, A, b)
-    xf = x.reshape(-1, n, 1).double()
-    Af = A.reshape(-1, m, n).double()
-    bf = b.reshape(-1, m, 1).double()
-    Kf = K.reshape((-1,) + tuple(K.shape[-2:])).double()
+    # (copies: inside an `inplace` history the caller's buffers are overwritten before the verdicts are computed)
+    xf = x.reshape(-1, n, 1).double().clone()
+    Af = A.reshape(-1, m, n).double().clone()
+    bf = b.reshape(-1, m, 1).double().clone()
+    Kf = K.reshape((-1,) + tuple(K.shape[-2:])).double().clone()
     recs = []
     for k, (Ai, bi, Bi, Ci, r) in enumerate(items):
         sv = torch.linalg.svdvals(Af[k]) if m * n > 0 else torch.zeros(0)
@@ -611,9 +681,7 @@ def run_chol_cases(ctx: Ctx, cases):
     for ci, case in enumerate(cases):
         A, b, items = chol_build(case)
         V = Views()
-        if "_buf" in case:
-            A, b = reuse_buf(case, "A", A), reuse_buf(case, "b", b)
-        elif not (case.get("alias") or case.get("expand")):
+        if "_buf" not in case and not (case.get("alias") or case.get("expand")):
             A, b = V.make("A", A, case.get("view")), V.make("b", b, case.get("viewb"))
         case["_views"] = V
         built.append((A, b, items))
@@ -649,15 +717,34 @@ def run_chol_cases(ctx: Ctx, cases):
             for r, it in zip(regions, case["items"]):
                 ctx.count(f"chol.{it['kind']}.{r}")
             ctx.sample({"stream": "chol", **{k: v for k, v in pub(case).items() if k != "items"}, "regions": regions}, cap=12)
+            if "_buf" in case:      # the caller's own tensors, overwritten in place just before this call
+                A, b = reuse_buf(case, "A", A), reuse_buf(case, "b", b)
             A0, b0 = A.clone(), b.clone()
-            sol = case.get("_sol") or S().Cholesky(upper=case["upper"])
+            if "_pre" in case:
+                case["_pre"]()
+            sol = case["_solf"]() if "_solf" in case else (case.get("_sol") or S().Cholesky(upper=case["upper"]))
             raised = None
+            gm = case.get("grad", "plain")
             try:
-                x = sol(A, b)
+                x = call_in_mode(gm, sol, [A, b]) if gm != "plain" else sol(A, b)
             except Exception as e:
                 raised = e
+            if "_post" in case:
+                case["_post"]()
             cc = rep_case(case)
             hs = sfx(case)
+            if raised is None and isinstance(x, torch.Tensor):
+                if gm != "plain":
+                    ctx.count(f"grad.{gm}")
+                    try:
+                        xp = S().Cholesky(upper=case["upper"])(A.detach().clone(), b.detach().clone())
+                    except Exception:
+                        xp = None
+                    if xp is None or values_differ(xp, x, EPS[dtype]):
+                        ctx.fail(cc, f"grad-mode: Cholesky behaves differently under autograd mode `{gm}` than with plain tensors "
+                                     f"(n={n}, {dtype}, upper={case['upper']})" + hs)
+                if same_storage(x, A) or same_storage(x, b) or overlaps_itself(x):
+                    ctx.fail(cc, "alias: the tensor returned by Cholesky shares memory with an argument or overlaps itself" + hs)
             V = case.pop("_views", None) or Views()
             if not (torch.equal(A, A0) and torch.equal(b, b0)) or V.dirty():
                 ctx.fail(cc, f"mutation: Cholesky changed its arguments {V.dirty()} (views {case.get('view')}/{case.get('viewb')})" + hs)
@@ -684,9 +771,9 @@ def run_chol_cases(ctx: Ctx, cases):
             if tuple(x.shape) != tuple(b.shape) or x.dtype != b.dtype:
                 ctx.fail(cc, f"shape: Cholesky returned {tuple(x.shape)} for b {tuple(b.shape)}")
                 continue
-            xf = x.reshape(-1, n, b.shape[-1]).double()
-            Af = A.reshape(-1, n, n).double()
-            bf = b.reshape(-1, n, b.shape[-1]).double()
+            xf = x.reshape(-1, n, b.shape[-1]).double().clone()
+            Af = A.reshape(-1, n, n).double().clone()
+            bf = b.reshape(-1, n, b.shape[-1]).double().clone()
             if len(items) > 1:
                 for k in range(len(items)):
                     if regions[k] != "pd":
@@ -848,6 +935,12 @@ def cg_build(case):
         x0 = (-3 * xs + 5 * 2.0 ** (case["bscale"] - case["ascale"])).to(dt)
     elif xk == "exact":
         x0 = xs.to(dt)
+    elif xk in ("near+", "near-"):
+        # spacing class of the stopping threshold: initial residual just above / just below tol*|b| (either sign)
+        u = torch.randn(n, 1, generator=g, dtype=torch.float64)
+        u = u / u.norm()
+        c_ = cg_tol(case) * float(b.double().norm()) * (1 + case.get("eta", 1e-3) * (1 if xk == "near+" else -1))
+        x0 = (xs - torch.linalg.solve(A.double(), c_ * u)).to(dt)
     else:
         raise ValueError(xk)
     mk = case["M"]
@@ -874,7 +967,9 @@ def make_cg(tol, maxiter):
 
 
 def cg_call(case, A, b, x0, M, spy=False):
-    sol = case.get("_sol") or make_cg(case["tol"], case["maxiter"])
+    if "_pre" in case:
+        case["_pre"]()
+    sol = case["_solf"]() if "_solf" in case else (case.get("_sol") or make_cg(case["tol"], case["maxiter"]))
     V = Views()
     bb = b[:, 0].clone() if case["bshape"] == "vec" else b.clone()
     xx = None if x0 is None else x0.clone()
@@ -895,19 +990,39 @@ def cg_call(case, A, b, x0, M, spy=False):
     Al = to_layout(A, case["layout"])
     Ml = None if M is None else to_layout(M, case["Mlayout"])
     K = None
+    style = case.get("style", "pos")
+
+    def go(a_, b_, x_, m_):
+        # every spelling of the same call: positional, keywords, only the given optional arguments as keywords
+        if style == "kw":
+            return sol(A=a_, b=b_, x=x_, M=m_)
+        if style == "kwonly":
+            kw = {}
+            if x_ is not None:
+                kw["x"] = x_
+            if m_ is not None:
+                kw["M"] = m_
+            return sol(a_, b_, **kw)
+        if style == "mixed":
+            return sol(a_, b_, x_, M=m_)
+        return sol(a_, b_, x_, m_)
+
+    gm = case.get("grad", "plain")
     if "_buf" in case:       # stale-read histories hand over the caller's very own tensor objects (no wrapper)
-        x = sol(Al, bb, xx, Ml)
+        x = go(Al, bb, xx, Ml)
+    elif gm != "plain":
+        x = call_in_mode(gm, go, [Al, bb, xx, Ml])
     elif spy and case["layout"] == "dense":
         Spy.log = []
-        x = sol(Al.as_subclass(Spy), bb, xx, Ml)
+        x = go(Al.as_subclass(Spy), bb, xx, Ml)
         K = Spy.log.count("out")
     elif spy and Ml is not None and case["Mlayout"] == "dense":
         Spy.log = []
-        x = sol(Al, bb, xx, Ml.as_subclass(Spy))
+        x = go(Al, bb, xx, Ml.as_subclass(Spy))
         K = Spy.log.count("out")
     else:
-        x = sol(Al, bb, xx, Ml)
-    return x, K, (Al, bb, Ml)
+        x = go(Al, bb, xx, Ml)
+    return x, K, (Al, bb, Ml, xx)
 
 
 def cg_tol(case):
@@ -925,9 +1040,19 @@ def check_cg(ctx: Ctx, case):
     A, b, x0, M = cg_build(case)
     cc = rep_case(case)
     hs = sfx(case)
+    gm = case.get("grad", "plain")
     try:
-        x, K, (Al, bb, Ml) = cg_call(case, A, b, x0, M, spy=True)
+        x, K, (Al, bb, Ml, xx) = cg_call(case, A, b, x0, M, spy=True)
+        if "_post" in case:
+            case["_post"]()
     except Exception as e:
+        if "_post" in case:
+            case["_post"]()
+        if gm in ("rg", "graph") and "out=" in str(e):
+            # observation (notes): CG.forward uses matmul(..., out=) and therefore refuses operands that require grad
+            ctx.count("grad.cg-refuses-autograd")
+            case.pop("_views", None)
+            return None, None
         ctx.fail(cc, f"cg-raises: CG raised on an SPD system (n={n}, layout {case['layout']}, x0 {case['x0']}, M {case['M']}/"
                      f"{case['Mlayout']}, b shape {case['bshape']}): {type(e).__name__}: {str(e)[:100]}" + hs)
         return None, None
@@ -941,12 +1066,28 @@ def check_cg(ctx: Ctx, case):
         ctx.fail(cc, f"mutation: CG wrote to storage it does not own: {V.dirty()} (views {case.get('view')}/{case.get('viewb')})" + hs)
     if bad_result(ctx, cc, x, "CG", hs):
         return None, K
+    if gm != "plain":
+        ctx.count(f"grad.{gm}")
+        c2 = {k_: v_ for k_, v_ in case.items() if k_ not in ("_sol", "_solf", "_pre", "_post", "_buf", "_views")}
+        c2["grad"] = "plain"
+        try:
+            xp = cg_call(c2, A, b, x0, M)[0]
+        except Exception:
+            xp = None
+        if values_differ(xp, x if x.layout == torch.strided else x.to_dense(), 1e3 * eps):
+            ctx.fail(cc, f"grad-mode: CG returns different values under autograd mode `{gm}` than with plain tensors "
+                         f"(n={n}, x0 {case['x0']}, M {case['M']})" + hs)
+    # ownership: the result may be the (in-place updated) initial guess, and for b = 0 the code returns b itself
+    # (both observed on the unchanged tree, see notes); it must never share memory with A or M nor overlap itself
+    if same_storage(x, Al) or (Ml is not None and same_storage(x, Ml)) or overlaps_itself(x) or \
+            (case["b"] != "zero" and gm == "plain" and same_storage(x, bb) and not (xx is not None and same_storage(xx, bb))):
+        ctx.fail(cc, "alias: the tensor returned by CG shares memory with A, M or b, or overlaps itself" + hs)
     if x.layout != torch.strided:
         x = x.to_dense()
     if tuple(x.shape) != (n, 1) or x.dtype != b.dtype:
         ctx.fail(cc, f"shape: CG returned shape {tuple(x.shape)} dtype {x.dtype} for n={n}" + hs)
         return None, K
-    xd, Ad, bd = x.double(), A.double(), b.double()
+    xd, Ad, bd = x.double().clone(), A.double(), b.double()
     if case["b"] == "zero":
         if float(xd.abs().max()) != 0.0:
             ctx.fail(cc, f"cg-zero: CG does not return zero for b = 0 (max |x| = {float(xd.abs().max()):.3e}, x0 {case['x0']})" + hs)
@@ -1138,7 +1279,10 @@ def check_sparse(ctx: Ctx, case, lines_out=None):
     cc = dict(case)
     fn = O().bsr_bsc_matmul if case["api"] == "bsr_bsc_matmul" else O()._sparse_csr_mm
     try:
-        y = fn(bsr, bsc)
+        if case.get("style") == "kw":
+            y = fn(bsr=bsr, bsc=bsc) if case["api"] == "bsr_bsc_matmul" else fn(mat1=bsr, mat2=bsc)
+        else:
+            y = fn(bsr, bsc)
     except Exception as e:
         ctx.fail(cc, f"sparse-raises: {case['api']} raised on a valid BSR x BSC pair (grid {sm}x{sn}x{sp}, blocks {dm}x{dn}x{dp}, "
                      f"nnz {len(col)}/{len(row)}): {type(e).__name__}: {str(e)[:120]}")
@@ -1340,6 +1484,16 @@ def corner_histories():
         it = {"kind": kind, "seed": seed, "nrhs": 1, "cexp": 2, "dscale": 0}
         it.update(kw)
         return {"kind": "chol", "dtype": "float64", "batch": [], "n": n, "items": [it]}
+    for how in ("deepcopy", "copy", "pickle", "state_dict"):
+        H.append({"kind": "history", "solver": "CG", "tol": None, "maxiter": None, "tag": "corner:copy-" + how, "copy_at": 1, "copy_how": how,
+                  "calls": [cg_call_case(2, 71), cg_call_case(40, 72), cg_call_case(3, 73), cg_call_case(33, 74, spec="uniform")]})
+    for fk in ("bshape", "Mshape", "dtype"):
+        H.append({"kind": "history", "solver": "CG", "tol": None, "maxiter": None, "tag": "corner:fail-" + fk, "fail_at": 1, "fail_kind": fk,
+                  "calls": [cg_call_case(3, 81), cg_call_case(36, 82, x0="random"), cg_call_case(5, 83)]})
+    H.append({"kind": "history", "solver": "LSTSQ", "tag": "corner:fail-inf", "fail_at": 1, "fail_kind": "inf", "copy_at": 2, "copy_how": "deepcopy",
+              "calls": [ls(3, 2, 91), ls(12, 7, 92, cexp=4), ls(2, 5, 93)]})
+    H.append({"kind": "history", "solver": "PINV:rtol1", "tag": "corner:fail-bshape", "fail_at": 0, "fail_kind": "bshape", "copy_at": 1, "copy_how": "pickle",
+              "calls": [ls(4, 4, 94), ls(9, 6, 95, cexp=4), ls(3, 8, 96)]})
     for upper in (False, True):
         H.append({"kind": "history", "solver": "Cholesky", "upper": upper, "tag": "corner:good-bad-good",
                   "calls": [ch(2, 61), ch(30, 62, cexp=6), ch(5, 63, kind="indef", j=1, nexp=1), ch(4, 64),
@@ -1414,6 +1568,32 @@ def corner_cases():
         cg(4, 119, dtype="float32", tol=1e-3), cg(16, 120, bscale=100, ascale=-100, cexp=2), cg(3, 121, maxiter=0),
         cg(6, 122, bscale=-100, cexp=1), cg(9, 123, bscale=-100, ascale=100, x0="random", cexp=1),
     ]
+    # (10) every pair of optional arguments of CG (constructor tol / maxiter, call x / M), b = 0, every call spelling
+    kf = 0
+    for tol in (None, 1e-3):
+        for mi in (None, 2, 400):
+            for x0 in ("none", "zeros", "random"):
+                for Mk in ("none", "jacobi"):
+                    for bk in ("generic", "zero"):
+                        C["cg"].append(cg(4, 500 + kf, cexp=1, tol=tol, maxiter=mi, x0=x0, M=Mk, b=bk,
+                                          style=("pos", "kw", "kwonly", "mixed")[kf % 4], grad=("plain", "nograd", "inference", "param")[(kf // 4) % 4]))
+                        kf += 1
+    # (16) special sizes: 3 everywhere, batch sizes equal to a matrix dimension, 1 in either batch position, primes
+    for solver in ("PINV", "LSTSQ"):
+        C["ls"] += [ls(solver, 3, 3, [{}, {"cexp": 2}, {"kind": "int", "r": 2, "cexp2": 0}], batch=(3,)),
+                    ls(solver, 4, 2, [{"cexp": 1}] * 4, batch=(4,)), ls(solver, 2, 5, [{"cexp": 1}] * 5, batch=(5,)),
+                    ls(solver, 3, 3, [{"cexp": 1}] * 3, batch=(1, 3)), ls(solver, 3, 3, [{"cexp": 1}] * 3, batch=(3, 1)),
+                    ls(solver, 7, 13, [{"cexp": 3}]), ls(solver, 31, 37, [{"cexp": 5}]), ls(solver, 37, 3, [{"cexp": 2}])]
+    for upper in (False, True):
+        C["chol"] += [ch(3, [{"nrhs": 3}, {"nrhs": 3, "cexp": 3}, {"nrhs": 3, "kind": "intspd"}], upper, batch=(3,)),
+                      ch(2, [{"nrhs": 2}, {"nrhs": 2}], upper, batch=(2,)), ch(5, [{"nrhs": 5}] * 5, upper, batch=(5,)),
+                      ch(3, [{}] * 3, upper, batch=(1, 3)), ch(3, [{}] * 3, upper, batch=(3, 1)),
+                      ch(13, [{"cexp": 5}], upper), ch(37, [{"cexp": 3}], upper)]
+    C["cg"] += [cg(3, 601), cg(3, 602, bshape="vec"), cg(7, 603, cexp=1), cg(13, 604, layout="csr", cexp=2), cg(31, 605, layout="coo"),
+                cg(37, 606, M="jacobi", x0="random")]
+    C["sparse"] += [sp(sm=3, sn=3, sp=3, dm=3, dn=3, dp=3, seed=9020, style="kw"), sp(sm=2, sn=2, sp=2, dm=2, dn=2, dp=2, seed=9021),
+                    sp(sm=1, sn=7, sp=1, dm=1, dn=1, dp=1, da=1.0, db=1.0, seed=9022), sp(sm=5, sn=1, sp=5, dm=3, dn=1, dp=3, pa="full", pb="full", seed=9023),
+                    sp(api="_sparse_csr_mm", style="kw", seed=9024)]
     C["sparse"] += [
         sp(pa="empty"), sp(pb="empty"), sp(pa="empty", pb="empty"), sp(pa="full", pb="full"), sp(disjoint=True, da=1.0, db=1.0),
         sp(pa="lastcol", pb="lastrow"), sp(pa="firstcol", pb="lastrow"), sp(pa="lastcol", pb="firstrow"), sp(pa="diag", pb="diag"),
@@ -1495,7 +1675,11 @@ def gen_history_cases(ctx: Ctx, count):
                 sub = gen_ls_cases(ctx, 1)[0]
                 sub.pop("malformed", None)
                 sub["solver"] = name
-                sub["m"] = m
+                sub["m"] = min(m, 24)           # (the exact reference solve of the model is cubic: histories stay small)
+                sub["n"] = min(sub["n"], 24)
+                m = sub["m"]
+                if len(sub["items"]) > 3:
+                    sub["items"], sub["batch"] = sub["items"][:3], [3]
                 for it in sub["items"]:
                     if it["kind"] == "int":
                         it["r"] = min(it["r"], m, sub["n"])
@@ -1525,7 +1709,9 @@ def gen_history_cases(ctx: Ctx, count):
             calls = []
             for n in sizes:
                 sub = gen_chol_cases(ctx, 1)[0]
-                sub["n"] = n
+                sub["n"] = min(n, 24)
+                if len(sub["items"]) > 3:
+                    sub["items"], sub["batch"] = sub["items"][:3], [3]
                 calls.append({k: v for k, v in sub.items() if k != "upper"})
             H.append({"kind": "history", "solver": "Cholesky", "upper": upper, "tag": order, "calls": calls})
             if rng.random() < 0.5:
@@ -1543,6 +1729,25 @@ def gen_history_cases(ctx: Ctx, count):
     return H
 
 
+def decorate_histories(rng, H):
+    """(11)/(14): a raising call and / or a copy of the solver object placed somewhere inside a history"""
+    for h in H:
+        if h.get("inplace"):
+            continue
+        base = h["solver"].split(":")[0]
+        if rng.random() < 0.4:
+            h["fail_at"] = rng.randrange(len(h["calls"]))
+            h["fail_kind"] = rng.choice({"CG": ["bshape", "Mshape", "dtype"], "Cholesky": ["npd", "npd", "bshape", "dtype"],
+                                         "LSTSQ": ["inf", "bshape", "dtype"], "PINV": ["bshape", "dtype"]}[base])
+        if rng.random() < 0.4:
+            h["copy_at"] = rng.randrange(len(h["calls"]))
+            h["copy_how"] = rng.choice(["deepcopy", "copy", "pickle", "state_dict"])
+            for c in h["calls"]:     # (LSTSQ keeps its last kernel output: a graph tensor there cannot be deep-copied — torch's rule)
+                if c.get("grad") in ("rg", "graph"):
+                    c["grad"] = "nograd"
+    return H
+
+
 def history_solver(h):
     name = h["solver"]
     if name == "CG":
@@ -1550,6 +1755,164 @@ def history_solver(h):
     if name == "Cholesky":
         return S().Cholesky(upper=h["upper"])
     return make_solver(name)
+
+
+def run_ownership(ctx: Ctx, cases):
+    """(15) the returned tensor is the caller's: overwriting it (one batch item, then all of it) must not change the other
+    items, the arguments, nor what the same solver object returns for the same system afterwards."""
+    for case in cases:
+        kind = case["kind"]
+        cc = pub(case)
+        try:
+            if kind == "ls":
+                A, b, _ = ls_build(case)
+                sol = make_solver(case["solver"])
+                call = lambda: sol(A, b)
+                who = case["solver"]
+            elif kind == "chol":
+                A, b, _ = chol_build(case)
+                if any(it["kind"] not in ("spd", "intspd") for it in case["items"]):
+                    continue
+                sol = S().Cholesky(upper=case["upper"])
+                call = lambda: sol(A, b)
+                who = "Cholesky"
+            else:
+                A, b, x0, M = cg_build(case)
+                sol = make_cg(case["tol"], case["maxiter"])
+                Al = to_layout(A, case["layout"])
+                call = lambda: sol(Al, b.clone(), None if x0 is None else x0.clone(), M)
+                who = "CG"
+            A0, b0 = A.clone(), b.clone()
+            x1 = call()
+            if not isinstance(x1, torch.Tensor) or x1.layout != torch.strided or x1.numel() == 0:
+                continue
+            keep = x1.clone()
+            ctx.count("own.cases")
+            if x1.dim() >= 3 and x1.shape[0] > 1:
+                x1[0].fill_(SENT)
+                if not torch.equal(torch.nan_to_num(x1[1:]), torch.nan_to_num(keep[1:])):
+                    ctx.fail(cc, f"alias: overwriting item 0 of the batch returned by {who} changed other items (overlapping result)")
+            x1.fill_(SENT)
+            if not (torch.equal(A, A0) and torch.equal(b, b0)):
+                ctx.fail(cc, f"alias: overwriting the tensor returned by {who} changed an argument of the call")
+            x2 = call()
+            x0_is_result = who == "CG" and case.get("x0") != "none"
+            if isinstance(x2, torch.Tensor) and not x0_is_result and case.get("b") != "zero" and \
+                    (same_storage(x1, x2) or not bool((x1 == SENT).all())):
+                ctx.fail(cc, f"alias: a later {who} call wrote into (or returned) the memory of the tensor returned by an earlier call")
+            if values_differ(keep, x2, (1e3 if who == "CG" else 1) * EPS[case["dtype"]]):
+                ctx.fail(cc, f"alias: after the caller overwrote the first result, the same {who} object returns something else for the same system")
+        except Exception as e:
+            import traceback
+            if "/pypose/" in traceback.format_exc():
+                ctx.fail(cc, f"crash: {type(e).__name__}: {str(e)[:160]} (result-ownership check)")
+            else:
+                raise
+
+
+def check_duck(ctx: Ctx):
+    """(13) other argument types.  Accepted on the unchanged tree and therefore held to the law: nn.Parameter operands
+    (under no_grad), a tensor subclass, sparse layouts for A and M (cg stream).  Refused loudly on the unchanged tree
+    (python lists, sparse b): recorded; if such a call ever returns, the result must satisfy the residual law."""
+    g = gen(4242)
+    n = 4
+    Q = torch.randn(n, n, generator=g, dtype=torch.float64)
+    Sm = Q @ Q.T + torch.eye(n, dtype=torch.float64)
+    b = torch.randn(n, 1, generator=g, dtype=torch.float64)
+
+    class Sub(torch.Tensor):
+        pass
+    for name, mk in (("PINV", lambda: make_solver("PINV")), ("LSTSQ", lambda: make_solver("LSTSQ")),
+                     ("Cholesky", lambda: S().Cholesky()), ("CG", lambda: S().CG())):
+        for how in ("list", "sparse-b", "subclass", "parameter"):
+            case = {"kind": "duck", "solver": name, "how": how}
+            ctx.note_case(("duck", name, how), True)
+            try:
+                if how == "list":
+                    x = mk()(Sm.tolist(), b.tolist())
+                elif how == "sparse-b":
+                    x = mk()(Sm, b.to_sparse_coo())
+                elif how == "subclass":
+                    x = mk()(Sm.clone().as_subclass(Sub), b.clone().as_subclass(Sub))
+                else:
+                    with torch.no_grad():
+                        x = mk()(torch.nn.Parameter(Sm.clone()), torch.nn.Parameter(b.clone()))
+            except BaseException:
+                ctx.count(f"duck.{how}.raises")
+                if how in ("subclass", "parameter"):
+                    ctx.fail(case, f"raises: {name} raised on a {how} operand (a Tensor)")
+                continue
+            ctx.count(f"duck.{how}.returns")
+            xd = x.to_dense() if isinstance(x, torch.Tensor) and x.layout != torch.strided else x
+            if not isinstance(xd, torch.Tensor) or tuple(xd.shape) != (n, 1) or \
+                    float((Sm @ xd.detach().double().as_subclass(torch.Tensor) - b).norm()) > 1e-4 * float(b.norm()):
+                ctx.fail(case, f"duck-type: {name} accepted a {how} operand and returned something that does not solve the system")
+
+
+def run_interleave(ctx: Ctx, alive=True):
+    """(17) module-level state: small cases of ALL streams (solver classes, sparse products, dtypes, layouts) shuffled
+    into one sequence and executed one at a time, then once more in reverse order"""
+    rng = ctx.rng
+    C = corner_cases()
+    pool = ([("ls", c) for c in rng.sample(C["ls"], 4)] + [("chol", c) for c in rng.sample(C["chol"], 4)] +
+            [("cg", c) for c in rng.sample(C["cg"], 4)] + ([("sparse", c) for c in rng.sample(C["sparse"], 4)] if alive else []) +
+            [("ls", c) for c in gen_ls_cases(ctx, 2) if not c.get("malformed")] + [("chol", c) for c in gen_chol_cases(ctx, 2)] +
+            [("cg", c) for c in gen_cg_cases(ctx, 2)])
+    rng.shuffle(pool)
+    for kind, c in pool + pool[::-1]:
+        c = {k_: v_ for k_, v_ in c.items() if not k_.startswith("_")}
+        ctx.count("interleave.calls")
+        {"ls": run_ls, "chol": run_chol_cases, "cg": run_cg, "sparse": run_sparse}[kind](ctx, [c])
+
+
+def failing_call(ctx, hp, k, base, name, sol, c, kind, attrs, before):
+    """(11) a call that raises in the middle of a history (non-PD matrix, non-finite entry, arguments that do not fit):
+    the caller catches the exception and goes on — the object's attributes and the caller's tensors must be as before
+    and the following calls are judged like those of a history without the failed call"""
+    g = gen(c.get("seed", c.get("items", [{}])[0].get("seed", 1)) + 17)
+    dt = tdt(c["dtype"])
+    try:
+        if base == "CG":
+            A, b, x0, M = cg_build({**c, "tol": None, "maxiter": None})
+            n = c["n"]
+            x0 = torch.randn(n, 1, generator=g, dtype=torch.float64).to(dt) if x0 is None else x0
+            if kind == "Mshape":
+                M = torch.eye(n + 1, dtype=dt)
+            elif kind == "dtype":
+                b = b.to(torch.float32 if dt == torch.float64 else torch.float64)
+            else:
+                b = torch.cat([b, b[:1]])
+            args = [A, b, x0, M]
+        else:
+            n = c["n"]
+            m = c.get("m", n)
+            A = torch.randn(m, n, generator=g, dtype=torch.float64).to(dt)
+            if base == "Cholesky":
+                A = (-(A @ A.T) - torch.eye(n, dtype=dt)) if kind == "npd" else (A @ A.T + torch.eye(n, dtype=dt))
+            b = torch.randn(m, 1, generator=g, dtype=torch.float64).to(dt)
+            if kind == "inf":
+                A[0, 0] = float("inf")
+            elif kind == "dtype":
+                b = b.to(torch.float32 if dt == torch.float64 else torch.float64)
+            elif kind != "npd":
+                b = torch.cat([b, b[:1]])
+            args = [A, b]
+    except Exception:
+        return
+    snaps = [None if t is None else t.clone() for t in args]
+    ctx.count(f"history.fail.{kind}")
+    try:
+        sol(*args)
+        ctx.count("history.fail.returned")
+    except BaseException:
+        pass
+    for t, s0 in zip(args, snaps):
+        if t is not None and not torch.equal(torch.nan_to_num(t, posinf=1e300), torch.nan_to_num(s0, posinf=1e300)):
+            ctx.fail({**hp, "call": k}, f"history-atomic: a {base} call that raised (kind {kind}) changed one of the caller's tensors")
+            break
+    after = {a: getattr(sol, a, None) for a in attrs}
+    if any(not (after[a] is before[a] or after[a] == before[a]) for a in attrs):
+        ctx.fail({**hp, "call": k}, f"history-atomic: a {base} call that raised (kind {kind}) changed the solver object: {before} -> {after}")
 
 
 def run_history(ctx: Ctx, hists):
@@ -1571,28 +1934,66 @@ def run_history(ctx: Ctx, hists):
         bufs = {} if h.get("inplace") else None
         if bufs is not None:
             ctx.count("history.inplace")
+        sols = [sol]
+        state = {"before": before}
+
+        def make_pre(k, c):
+            def pre():
+                if h.get("copy_at") == k:
+                    # (14) a copy of the object made in the middle of the history, then copy and original are used alternately:
+                    # each must follow its own law
+                    import copy as _copy, pickle as _pickle
+                    how = h.get("copy_how", "deepcopy")
+                    try:
+                        if how == "deepcopy":
+                            s2 = _copy.deepcopy(sol)
+                        elif how == "copy":
+                            s2 = _copy.copy(sol)
+                        elif how == "pickle":
+                            s2 = _pickle.loads(_pickle.dumps(sol))
+                        else:
+                            s2 = history_solver(h)
+                            s2.load_state_dict(sol.state_dict())
+                        sols.append(s2)
+                        ctx.count(f"history.copy.{how}")
+                    except Exception as e:
+                        ctx.fail({**hp, "call": k}, f"history-copy: {how} of a used {base} solver raised {type(e).__name__}: {str(e)[:80]}")
+                if h.get("fail_at") == k:
+                    failing_call(ctx, hp, k, base, name, sols[k % len(sols)], c, h.get("fail_kind", "bshape"), attrs, state["before"])
+            return pre
+
+        def make_post(k):
+            def post():
+                cur = sols[k % len(sols)]
+                after = {a: getattr(cur, a, None) for a in attrs}
+                bf = state["before"]
+                changed = [a for a in attrs if not (after[a] is bf[a] or after[a] == bf[a])]
+                if changed:
+                    a = changed[0]
+                    ctx.fail({**hp, "call": k}, f"history-state: {base}.forward changed the solver object's attribute `{a}` from "
+                                                f"{bf[a]!r} to {after[a]!r} (call {k} of {len(h['calls'])}, sizes {sizes}): later calls "
+                                                f"on the same object no longer behave like a fresh solver")
+                    state["before"] = after
+            return post
+
+        calls = []
         for k, c in enumerate(h["calls"]):
             c = dict(c)
-            c["_sol"], c["_report"], c["_call"] = sol, hp, k
+            c.pop("fail", None)
+            c["_solf"] = (lambda k=k: sols[k % len(sols)])
+            c["_pre"], c["_post"] = make_pre(k, dict(c)), make_post(k)
+            c["_report"], c["_call"] = hp, k
             if bufs is not None:
                 c["_buf"] = bufs
             if base == "CG":
                 c["tol"], c["maxiter"] = h.get("tol"), h.get("maxiter")
-                run_cg(ctx, [c])
             elif base == "Cholesky":
                 c["upper"] = h["upper"]
-                run_chol_cases(ctx, [c])
             else:
                 c["solver"] = name
-                run_ls(ctx, [c])
-            after = {a: getattr(sol, a, None) for a in attrs}
-            changed = [a for a in attrs if not (after[a] is before[a] or after[a] == before[a])]
-            if changed:
-                a = changed[0]
-                ctx.fail({**hp, "call": k}, f"history-state: {base}.forward changed the solver object's attribute `{a}` from "
-                                            f"{before[a]!r} to {after[a]!r} (call {k} of {len(h['calls'])}, sizes {sizes}): later calls "
-                                            f"on the same object no longer behave like a fresh solver")
-                before = after
+            calls.append(c)
+        runner = run_cg if base == "CG" else run_chol_cases if base == "Cholesky" else run_ls
+        runner(ctx, calls)           # implementation calls in order; model / certificate lines in one driver batch
 
 
 # ============================================================================================ generation
@@ -1670,7 +2071,7 @@ def gen_ls_cases(ctx: Ctx, count):
             items[2].update({"kind": "int", "r": max(min(m, n) - 1, 0), "cexp2": 20 if dtype == "float64" else 2})
             items[1]["bscale"] = -30
         cases.append({"kind": "ls", "solver": solver, "dtype": dtype, "batch": batch, "m": m, "n": n, "items": items,
-                      "view": rng.choice(["plain", "plain", "T", "slice", "strided"]), "viewb": rng.choice(["plain", "plain", "T", "slice", "strided"])})
+                      "grad": rng.choice(GRAD_MODES), "view": rng.choice(["plain", "plain", "T", "slice", "strided"]), "viewb": rng.choice(["plain", "plain", "T", "slice", "strided"])})
         if nb > 1 and rng.random() < 0.2:
             cases[-1]["expand"] = rng.choice(["A", "b"])
         elif rng.random() < 0.06:
@@ -1748,7 +2149,7 @@ def gen_chol_cases(ctx: Ctx, count):
                 it["cexp"] = min(ce, 8 if dtype == "float64" else 3)
                 it["scale"] = sc if dtype == "float64" else max(min(sc, 20), -20)
         cases.append({"kind": "chol", "upper": rng.random() < 0.5, "dtype": dtype, "batch": batch, "n": n, "items": its,
-                      "view": rng.choice(["plain", "plain", "T", "slice", "strided"]), "viewb": rng.choice(["plain", "plain", "T", "slice", "strided"])})
+                      "grad": rng.choice(GRAD_MODES), "view": rng.choice(["plain", "plain", "T", "slice", "strided"]), "viewb": rng.choice(["plain", "plain", "T", "slice", "strided"])})
         if nb > 1 and rng.random() < 0.2:
             cases[-1]["expand"] = rng.choice(["A", "b"])
         elif rng.random() < 0.06 and n >= nrhs:
@@ -1791,7 +2192,9 @@ def gen_cg_cases(ctx: Ctx, count):
             "ascale": rng.choice([0, 0, 0, -30, 30, 10] + ([-100, 100] if dtype == "float64" else [])),
             "bscale": rng.choice([0, 0, -30, 30, -10, 17] + ([-100, 100] if dtype == "float64" else [])),
             "b": rng.choice(["generic"] * 6 + ["zero", "e0"]),
-            "x0": rng.choice(["none", "none", "none", "zeros", "random", "partial", "last", "far", "exact"]),
+            "x0": rng.choice(["none", "none", "none", "zeros", "random", "partial", "last", "far", "exact", "near+", "near-"]),
+            "eta": rng.choice([1e-3, 3e-2, 0.3]), "style": rng.choice(["pos", "pos", "kw", "kwonly", "mixed"]),
+            "grad": rng.choice(GRAD_MODES),
             "M": Mk, "Mlayout": rng.choice(["dense", "dense", "csr", "coo"]),
             "tol": tol, "maxiter": maxiter, "bshape": rng.choice(["col", "col", "vec"]),
             "view": rng.choice(["plain", "plain", "T", "slice", "strided"]), "viewb": rng.choice(["plain", "plain", "T", "slice", "strided"]),
@@ -1837,6 +2240,7 @@ def gen_sparse_cases(ctx: Ctx, count):
             "pa": rng.choice(pats), "pb": rng.choice(pats),
             "da": rng.choice([0.0, 0.1, 0.3, 0.5, 0.8, 1.0]), "db": rng.choice([0.0, 0.1, 0.3, 0.5, 0.8, 1.0]),
             "disjoint": rng.random() < 0.08, "zeroval": rng.random() < 0.1, "stale": rng.random() < 0.25,
+            "style": rng.choice(["pos", "pos", "kw"]),
             "data": rng.choice(["int", "int", "float"]), "dtype": rng.choice(["float64", "float32"]),
             "seed": rng.randrange(1 << 30)})
         if rng.random() < 0.06:      # beyond the documented block sizes 1..4 / small grids
@@ -1965,6 +2369,7 @@ def run(ctx: Ctx):
     alive = sparse_canary(ctx, sparse_cases)
     # deterministic corner corpus first (identical for every seed), then the random streams
     check_empty_batch(ctx)
+    check_duck(ctx)
     run_chol_cases(ctx, C["chol"])
     run_ls(ctx, C["ls"])
     run_cg(ctx, C["cg"])
@@ -1973,10 +2378,15 @@ def run(ctx: Ctx):
     run_dispatch(ctx, skip_merge_join=not alive)
     if alive:
         run_sparse(ctx, sparse_cases)
-    run_chol_cases(ctx, gen_chol_cases(ctx, ctx.pick(300, 5000)))
-    run_ls(ctx, gen_ls_cases(ctx, ctx.pick(300, 5000)))
-    run_cg(ctx, gen_cg_cases(ctx, ctx.pick(400, 7000)))
-    run_history(ctx, gen_history_cases(ctx, ctx.pick(40, 800)))
+    run_chol_cases(ctx, gen_chol_cases(ctx, ctx.pick(250, 5000)))
+    run_ls(ctx, gen_ls_cases(ctx, ctx.pick(250, 5000)))
+    run_cg(ctx, gen_cg_cases(ctx, ctx.pick(350, 7000)))
+    run_history(ctx, decorate_histories(ctx.rng, gen_history_cases(ctx, ctx.pick(30, 700))))
+    own = [c for c in C["ls"][:13] + C["chol"][:17] + C["cg"][:16] if not c.get("malformed")]
+    own += [c for c in gen_ls_cases(ctx, ctx.pick(10, 250)) if not c.get("malformed")] + gen_chol_cases(ctx, ctx.pick(10, 250)) + \
+        gen_cg_cases(ctx, ctx.pick(10, 250))
+    run_ownership(ctx, own)
+    run_interleave(ctx, alive)
     ctx.notes.append("largest observed error/tolerance per oracle: " +
                      ", ".join(f"{k}={v:.3g}" for k, v in sorted(STATS.items())))
 
@@ -2003,7 +2413,7 @@ def search(ctx: Ctx):
         if "ls" in broken and len(ctx.failures) == n0:
             run_ls(ctx, gen_ls_cases(ctx, 200))
         if len(ctx.failures) == n0:
-            run_history(ctx, gen_history_cases(ctx, 60))
+            run_history(ctx, decorate_histories(ctx.rng, gen_history_cases(ctx, 60)))
         if len(ctx.failures) > n0:
             return
 
@@ -2026,6 +2436,8 @@ def replay(ctx: Ctx, case) -> bool:
         run_history(ctx, [c])
     elif kind == "empty-batch":
         check_empty_batch(ctx)
+    elif kind == "duck":
+        check_duck(ctx)
     elif kind == "import":
         try:
             O()
